@@ -10,7 +10,7 @@ K_CONTEXT = [
     {'crate': 'p3-circuit', 'harness': 'c19_set_witness_contract', 'profile': 'release'},
 ]
 PROPS = {
-    'C02': {'units': ['expr', 'lower', 'opt', 'fuse', 'run19'], 'kani': K_ANALYSIS + [{'crate': 'p3-circuit', 'harness': 'c02_allocator_monotone'}], 'exclude': r'H_dup_out_unmentioned'},
+    'C02': {'units': ['expr', 'lower', 'opt', 'fuse', 'run19'], 'kani': K_ANALYSIS + [{'crate': 'p3-circuit', 'harness': 'c02_allocator_monotone'}]},
     'C03': {'units': ['opt', 'fuse'], 'kani': K_ANALYSIS},
     'C19': {'units': ['run19'], 'kani': K_CONTEXT},
     'C20': {'units': ['gad', 'quot', 'fri', 'periodic'], 'kani': [], 'only': {'fri': r'evaluate_polynomial|circuit_exp_by_constant|lemma_'}},
@@ -56,9 +56,9 @@ META = {
         'technique': 'Verus contracts on extracted real functions (Deduplicator) + Kani loop-free harness on AluKey',
         'text': 'Deductive proof that ALU de-duplication never drops a relation: Deduplicator::run ensures all_covered(input ops, kept ops, final rewrite), and '
                 'theorem_dedup_no_relation_dropped turns that into: ANY assignment satisfying every kept op satisfies every input op read through the rewrite '
-                '(no reference to the honest runner). Proved under the named hypothesis H (duplicate out slot unmentioned), whose single call-site obligation '
-                'fails on the unchanged tree and is the recorded finding C03-alias; every other obligation is discharged.',
-        'note': 'Under contract: Deduplicator::{new,detect_duplicate,run}, AluKey::{new,with_acc}, WitnessId::resolve, Op::apply_witness_rewrite, and of MulAddFusion the analysis and candidate test: '
+                '(no reference to the honest runner). The side condition (a rewritten slot is mentioned by no kept op) was the open finding C03-alias; since the fix ba1bfe9 the pass '
+                'maintains the set of mentioned slots (Deduplicator::mark_mentioned, under contract) and the condition is a discharged obligation.',
+        'note': 'Under contract: Deduplicator::{new,detect_duplicate,mark_mentioned,run}, AluKey::{new,with_acc}, WitnessId::resolve, Op::apply_witness_rewrite, and of MulAddFusion the analysis and candidate test: '
                 'def_idx, is_const, uses, is_backwards, insert_def, track_backwards_op, scan_use_counts (= number of relation reads incl. Horner accumulators), scan_defs (last-definer / constant-sticky / '
                 'backwards invariants), try_fuse (a returned candidate is `fusable`: plain product read only by that plain sum, mentioned by no other relation — two hypotheses were needed before the fixes F4/F5). '
                 'NOT under contract: identify_candidates, filter_valid, apply (how the validated candidates are spliced into the list). Trusted base as C02; non-primitive rows denote an uninterpreted relation.',
